@@ -4,6 +4,7 @@ package rosmar
 
 import (
 	"context"
+	"errors"
 
 	sgbucket "github.com/couchbase/sg-bucket"
 )
@@ -239,5 +240,71 @@ func Harness_C03_writeUpdateWithXattrs() {
 	post := verifGetDoc(ce.env.db, 1, ce.key)
 	verifAssert(verifAnd(verifBytesEq(verifXattrGet(post.Xattrs, u0), []byte(`"one"`)), verifBytesEq(verifXattrGet(post.Xattrs, u1), []byte(`"two"`))),
 		"each callback's result is stored on top of the version it was shown: no xattr update is lost")
+	verifReach("done")
+}
+
+// C03, retry loops (deterministic interleaving: the competing write is made by the callback
+// itself, through the other handle): after a requested retry, or after losing the CAS race,
+// the callback is shown the version that is current then, and its answer is what is stored.
+func Harness_C03_writeUpdateRetrySeesFresh() {
+	le := lifeBegin(true)
+	ctx := context.Background()
+	verifAssert(le.c1.SetRaw("k", 0, nil, []byte(`{"v":1}`)) == nil, "write succeeds")
+	mode := verifChoose("how", 2) // 0: the callback asks for a retry; 1: it answers and loses the CAS race
+	calls := 0
+	var shown2 []byte
+	var shownCas2, otherCas uint64
+	casOut, err := le.c1.WriteUpdateWithXattrs(ctx, "k", nil, 0, nil, nil,
+		func(doc []byte, xattrs map[string][]byte, cas uint64) (sgbucket.UpdatedDoc, error) {
+			calls++
+			switch calls {
+			case 1:
+				otherCas, _ = le.c2.WriteCas("k", 0, cas, []byte(`{"v":2}`), sgbucket.Raw) // the competing writer
+				if mode == 0 {
+					return sgbucket.UpdatedDoc{}, sgbucket.ErrCasFailureShouldRetry
+				}
+				return sgbucket.UpdatedDoc{Doc: []byte(`{"v":"stale"}`)}, nil
+			case 2:
+				shown2, shownCas2 = doc, cas
+				return sgbucket.UpdatedDoc{Doc: []byte(`{"v":"mine"}`)}, nil
+			}
+			return sgbucket.UpdatedDoc{}, errors.New("too many retries")
+		})
+	verifAssert(otherCas != 0, "the competing write succeeds")
+	verifAssert(calls == 2, "one retry")
+	verifAssert(verifAnd(string(shown2) == `{"v":2}`, shownCas2 == otherCas), "the retry is shown the version that is current then, not the one read before")
+	verifAssert(err == nil, "the update succeeds on the retry")
+	v, cas, gerr := le.c2.GetRaw("k")
+	verifAssert(verifAnd(gerr == nil, string(v) == `{"v":"mine"}`, cas == casOut), "the stored document is the callback's last answer, the competing update was seen not overwritten blindly")
+	verifReach("done")
+}
+
+// the same for Update's retry loop
+func Harness_C03_updateRetrySeesFresh() {
+	le := lifeBegin(true)
+	verifAssert(le.c1.SetRaw("k", 0, nil, []byte("v1")) == nil, "write succeeds")
+	mode := verifChoose("how", 2)
+	calls := 0
+	var shown2 []byte
+	casOut, err := le.c1.Update("k", 0, func(cur []byte) ([]byte, *uint32, bool, error) {
+		calls++
+		switch calls {
+		case 1:
+			_ = le.c2.SetRaw("k", 0, nil, []byte("v2")) // the competing writer
+			if mode == 0 {
+				return nil, nil, false, sgbucket.ErrCasFailureShouldRetry
+			}
+			return []byte("stale"), nil, false, nil
+		case 2:
+			shown2 = cur
+			return []byte("mine"), nil, false, nil
+		}
+		return nil, nil, false, errors.New("too many retries")
+	})
+	verifAssert(calls == 2, "one retry")
+	verifAssert(string(shown2) == "v2", "the retry is shown the version that is current then")
+	verifAssert(err == nil, "the update succeeds on the retry")
+	v, cas, gerr := le.c2.GetRaw("k")
+	verifAssert(verifAnd(gerr == nil, string(v) == "mine", cas == casOut), "the stored document is the callback's last answer")
 	verifReach("done")
 }
